@@ -360,7 +360,7 @@ func TestVerifC12Swap(t *testing.T) {
 		}
 		return
 	}
-	b1, b2 := vreport.Pick(4, -1), vreport.Pick(2, 4) // preemption bound with 1 reader / with 2 readers
+	b1, b2 := vreport.Pick(4, 6), vreport.Pick(2, 3) // preemption bound with 1 reader / with 2 readers
 	var cases []c12sCase
 	for _, op := range c12sOps {
 		cases = append(cases, c12sCase{Op: op.name, Readers: 1, Bound: b1}, c12sCase{Op: op.name, Readers: 2, Bound: b2})
